@@ -292,6 +292,13 @@ Example ex_copydone_outside_copy : classify (handle_bytes (o_plain true) (Idle c
 Example ex_copydata_sync_in_copy : classify (handle_bytes (o_plain true) (InCopy false false c0) [100;0;0;0;5;120;83;0;0;0;4]%N []) = (KCont, 5%N). Proof. reflexivity. Qed.
 (* the known one *)
 Example ex_ext_copy_copydone : classify (handle_bytes (o_plain true) (InCopy false true c0) [99;0;0;0;4]%N [ZI]) = (KBlocked, 5%N). Proof. reflexivity. Qed.
+(* caching on: Close of a named statement forgets the name when it ARRIVES (80b6794), so a Bind of that name
+   behind it is refused at once with an error reply and the task ends; it is no longer buffered until Sync *)
+Example ex_close_then_bind : classify (handle_bytes (o_all true) (Idle (mkC [[115;49]%N] [] [] 0))
+     [67;0;0;0;8;83;115;49;0;  66;0;0;0;14;0;115;49;0;0;0;0;0;0;0]%N []) = (KErr, 9%N) /\
+  r_effs (handle_bytes (o_all true) (Idle (mkC [[115;49]%N] [] [] 0))
+     [67;0;0;0;8;83;115;49;0;  66;0;0;0;14;0;115;49;0;0;0;0;0;0;0]%N []) = [FxReply RErrZ].
+Proof. vm_compute. split; reflexivity. Qed.
 (* admin: non-Query ends the session, Query with empty body panics *)
 Example ex_admin : fin_of (handle_bytes (o_plain true) AdminIdle [80;0;0;0;4]%N []) = KErr /\ fin_of (handle_bytes (o_plain true) AdminIdle [81;0;0;0;4]%N []) = KPanic.
 Proof. vm_compute. split; reflexivity. Qed.
